@@ -16,13 +16,18 @@
 package main
 
 import (
+	"bufio"
+	"bytes"
 	"encoding/json"
 	"fmt"
+	"io"
 	"math/rand"
 	"os"
+	"os/exec"
 	"reflect"
 	"strings"
 	"sync"
+	"time"
 
 	"github.com/google/uuid"
 	"go.dedis.ch/kyber/v3"
@@ -706,12 +711,120 @@ func run(raw json.RawMessage) lib.Case {
 		panic(err)
 	}
 	switch in.Kind {
-	case "prop":
-		return runProp(in)
-	case "hist":
+	case "prop", "hist":
+		if os.Getenv(childEnv) == "" {
+			return viaChild(in, raw)
+		}
+		if in.Kind == "prop" {
+			return runProp(in)
+		}
 		return runHist(in)
 	}
 	return runPure(in)
+}
+
+// ---- cluster cases run in a child process ----------------------------------------------------
+//
+// A panic in a goroutine of a server (connection handler, flush goroutine, instance
+// dispatcher) cannot be recovered by the harness and ends the process. The propagation and
+// history cases therefore run in a child (this binary re-executed, one child for many cases):
+// when it dies, the case it was working on is reported as such (clause 11) and a new child
+// serves the following cases.
+
+const childEnv = "VERIF_C06_CHILD"
+
+type childProc struct {
+	cmd *exec.Cmd
+	in  io.WriteCloser
+	out *bufio.Reader
+}
+
+var child *childProc
+
+func startChild() *childProc {
+	cmd := exec.Command(os.Args[0])
+	cmd.Env = append(os.Environ(), childEnv+"=1")
+	cmd.Stderr = os.Stderr
+	in, err := cmd.StdinPipe()
+	if err != nil {
+		panic(err)
+	}
+	out, err := cmd.StdoutPipe()
+	if err != nil {
+		panic(err)
+	}
+	if err := cmd.Start(); err != nil {
+		panic(err)
+	}
+	return &childProc{cmd: cmd, in: in, out: bufio.NewReaderSize(out, 1<<20)}
+}
+
+func viaChild(in input, raw json.RawMessage) lib.Case {
+	if child == nil {
+		child = startChild()
+	}
+	c := child
+	type answer struct {
+		line []byte
+		err  error
+	}
+	ans := make(chan answer, 1)
+	go func() {
+		if _, err := c.in.Write(append(append([]byte(nil), raw...), '\n')); err != nil {
+			ans <- answer{nil, err}
+			return
+		}
+		for {
+			l, err := c.out.ReadBytes('\n')
+			if err != nil {
+				ans <- answer{nil, err}
+				return
+			}
+			if bytes.HasPrefix(l, []byte(casePrefix)) { // anything else on stdout is log output of onet
+				ans <- answer{l[len(casePrefix):], nil}
+				return
+			}
+		}
+	}()
+	var a answer
+	select {
+	case a = <-ans:
+	case <-time.After(5 * time.Minute):
+		a = answer{nil, fmt.Errorf("no answer within 5 minutes")}
+	}
+	if a.err == nil {
+		var res lib.Case
+		if err := json.Unmarshal(a.line, &res); err == nil {
+			return res
+		} else {
+			a.err = err
+		}
+	}
+	// the child is gone (or wedged): that is the observation for this case
+	c.cmd.Process.Kill()
+	c.cmd.Wait()
+	child = nil
+	return lib.Case{Coq: "CSetup 6", Class: in.Kind + "-" + in.Name + "+process-died", Obs: "the process running the servers ended: " + a.err.Error(),
+		Nontrivial: true, Key: "died|" + string(raw)}
+}
+
+const casePrefix = "C06CASE "
+
+// childLoop serves cases read from stdin, one JSON input per line.
+func childLoop() {
+	rd := bufio.NewReaderSize(os.Stdin, 1<<20)
+	for {
+		l, err := rd.ReadBytes('\n')
+		if err != nil {
+			return
+		}
+		c := run(json.RawMessage(bytes.TrimSpace(l)))
+		b, err := json.Marshal(c)
+		if err != nil {
+			panic(err)
+		}
+		os.Stdout.Write(append(append([]byte(casePrefix), b...), '\n'))
+	}
 }
 
 // ---- generators -----------------------------------------------------------------------
@@ -990,6 +1103,16 @@ func main() {
 	log.SetDebugVisible(0)
 	log.OutputToBuf()
 	registerProtocols()
+	if os.Getenv(childEnv) != "" {
+		childLoop()
+		return
+	}
+	defer func() {
+		if child != nil {
+			child.in.Close()
+			child.cmd.Wait()
+		}
+	}()
 	lib.Main(lib.Harness{
 		Prop:   "C06",
 		Import: "Onet.Corr.C06",
